@@ -278,3 +278,39 @@ class RunFactory(Kernel):
 
 
 KERNELS.append(RunFactory())
+
+
+class InvalidBackendK(Kernel):
+    prop = "C11"
+    file = "einx/_src/frontend/backend.py"
+    module = "einx._src.frontend.backend"
+    which = "is_supported_tensor"
+    allowed_raises = ("ImportBackendError",)
+
+    @property
+    def qual(self):
+        return f"InvalidBackend/{self.which}"
+
+    def setup(self, eng, bound=None):
+        env = {"self": SRec("InvalidBackend", message=SObj(z3.Const("message", Obj)), name=SObj(z3.Const("name", Obj)))}
+        if self.which == "is_supported_tensor":
+            env["tensor"] = SObj(z3.Const("tensor", Obj))
+        if self.which == "__getattr__":
+            env["name"] = SObj(z3.Const("attribute", Obj))
+        return env, [], {}
+
+    def post(self, eng, out, p):
+        if self.which == "is_supported_tensor":
+            eng.oblige("post:a backend that failed to initialise accepts no tensor (it is never a candidate by tensor types)", p, z3.Not(eng.truth(out.v)) if not isinstance(out, Raise) else z3.BoolVal(False), "post")
+        else:
+            eng.oblige("post:using a backend that failed to initialise always raises ImportBackendError", p, z3.BoolVal(isinstance(out, Raise) and out.cls == "ImportBackendError"), "post")
+
+
+def _mk(base, name, **attrs):
+    return type(name, (base,), attrs)()
+
+
+for w, text in (("is_supported_tensor", "InvalidBackend.is_supported_tensor is False for every tensor: a failed backend is never selected by tensor types, all other backends stay usable"),
+                ("__getattr__", "InvalidBackend.<any operation> raises ImportBackendError: the failure surfaces only when the failed backend is actually selected and used"),
+                ("raise_on_import_failure", "InvalidBackend.raise_on_import_failure raises ImportBackendError (called by the entry point right after selection)")):
+    KERNELS.append(_mk(InvalidBackendK, f"Invalid_{w}", which=w, id=f"C11.P.invalid_backend[{w}]", describe=text))
